@@ -131,6 +131,9 @@ def eagain_noise(c):
 
 def oracle_kernel_equiv(c):
     """C01: the emulated / kernel backend result equals what openat2(RESOLVE_IN_ROOT) gives."""
+    m = oracle_loc_inside(c)
+    if m:
+        return m
     if c.kern is None:
         return None
     a = canon_res(c.res)
@@ -152,8 +155,20 @@ def oracle_kernel_equiv(c):
     return f"outcome differs: libpathrs {a} kernel {k}"
 
 
+def oracle_loc_inside(c):
+    """A descriptor handed back by an operation on a Root points into the root's tree."""
+    for t in c.extra.get("loc", []):
+        if t and t[0] == "outside":
+            where = unhex(t[1]).decode("latin1") if len(t) > 1 else "?"
+            return f"the operation returned a descriptor of an object outside the root's tree: {where}"
+    return None
+
+
 def oracle_outside_untouched(c):
-    """C03: nothing outside the root changed."""
+    """C03: nothing outside the root changed, and nothing outside the root was opened."""
+    m = oracle_loc_inside(c)
+    if m:
+        return m
     for s in c.snaps:
         # snap lines: <sign> <kind..> <hexpath> ...
         path = None
@@ -750,10 +765,53 @@ def check_C11(v, tier, seed):
     cov["tie_mismatches"] = broken
     cov["handle_constructors"] = ctor
     cov["ledger_verdicts"] = led
+    cov["first_use_descriptors"] = first_use_fd_step(v, tier)
     # descriptors opened, duplicated or closed behind the recorder's back
     strace_tie_step(v, "C11", [["root", "--ops", "all", "--seed", str(seed + 47), "--n", str(sizes(tier, 150, 2000))],
                                ["capi-args"]], cov)
     return cov
+
+
+def first_use_fd_step(v, tier):
+    """The library's first use in a fresh process (no warm-up), in three orders: the only descriptor that may outlive a
+    call is the process-global procfs handle (one, close-on-exec, the root of a procfs), created by whichever call needs
+    it first; every later call leaves the table as it found it."""
+    st = {"steps": 0, "scenarios": 0, "global_handles_seen": 0, "modes": []}
+    for label, extra in (("openat2", []), ("enosys", ["--no-openat2"])):
+        out = os.path.join(CACHE, "runs", f"C11-fd-init-{label}.txt")
+        run_harness(["fd-init"] + extra, out)
+        st["modes"].append(label)
+        kept = {}
+        for line in open(out):
+            t = line.split()
+            if not t or t[0] != "fdinit":
+                continue
+            kv = dict(x.split("=", 1) for x in t[1:] if "=" in x and not x.startswith(("+", "-")))
+            sc, step = kv.get("scenario"), kv.get("step")
+            st["steps"] += 1
+            extras = [x for x in t if x.startswith("+")]
+            closed = [x for x in t if x.startswith("-") and x[1:].isdigit()]
+            bad = None
+            if kv.get("res", "").startswith("DIED"):
+                bad = "the fresh process died during first use"
+            if closed:
+                bad = f"the call closed descriptors it does not own: {closed}"
+            for x in extras:
+                d = dict(y.split("=", 1) for y in x.split(":", 1)[1].split(",") if "=" in y)
+                is_global = d.get("fstype") == PROC_MAGIC and d.get("cloexec") == "1" and d.get("kind") == "d" and d.get("path") == "x2f"
+                if is_global and sc not in kept:
+                    kept[sc] = x
+                    st["global_handles_seen"] += 1
+                elif is_global:
+                    bad = f"a second long-lived procfs descriptor stays open after {step}: {x} (already kept: {kept[sc]})"
+                else:
+                    bad = f"a descriptor that is not the process-global procfs handle stays open after {step}: {x}"
+            if bad:
+                facts = {"kind": "oracle", "oracle": bad, "suite": "fd-init", "mode": label, "scenario": sc, "step": step}
+                v.fail(facts, {"why": "first use of the library in a fresh process: " + bad, "case": {"line": line.strip()},
+                               "how": f"verif-harness fd-init {' '.join(extra)}"})
+        st["scenarios"] += len(kept)
+    return st
 
 
 def proc_facts(c):
